@@ -311,6 +311,30 @@ impl Property for C07 {
             trace.push("=== run S (with the rejected frames) ===".to_string());
             trace.extend(render_trace(&w1, &case.cfg));
         }
+        if panicked && !unspecified {
+            // A panic is an effect too: if the twin that never hears the rejected frames runs through, a frame the
+            // device did not accept made it panic (panics that both runs share are C04's business).
+            let cuts = oversize_cuts(&w1);
+            let (twin, removed_total) = twin_of(case, &w1, &cuts);
+            if removed_total > 0 {
+                let (w2, _s2) = run_quiet(&twin);
+                let twin_clean = w2.env.borrow().unspecified_seen == 0 && !w2.records.iter().any(|r| r.result.is_panic());
+                if twin_clean {
+                    if want_trace {
+                        trace.push("=== twin run S' (frames the reference rejects removed) ===".to_string());
+                        trace.extend(render_trace(&w2, &twin.cfg));
+                    }
+                    let rec = w1.records.iter().find(|r| r.result.is_panic()).unwrap();
+                    stats.nontrivial = true;
+                    let v = Violation::new(
+                        "C07.trace-diverged",
+                        &format!("panic|{:?}", case.cfg.frontend),
+                        format!("operation #{} ({}) panicked: {}; the twin device that never received the rejected frames ran through", rec.idx, rec.op.kind(), rec.result.short()),
+                    );
+                    return finish_out(Some(v), stats, trace);
+                }
+            }
+        }
         if unspecified || panicked {
             stats.bump(if panicked { "probe.foreign-panic" } else { "probe.stood-down-after-unspecified-frame" });
             return finish_out(None, stats, trace);
